@@ -29,7 +29,8 @@ Scenario (JSON object):
                product: [method index, class ids...] for 'first', [class ids...] for 'member'
     style      'default_defined'   : primary template defines fn, explicit specializations : not_defined
                'default_undefined' : primary template : not_defined, explicit specializations define fn
-    indirect   bool: not_defined is inherited through an intermediate class for every other marked combination
+    indirect   bool: the marked combinations derive from not_defined in turn directly, through an intermediate class,
+               privately, and through two bases at once (a repeated base)
     templates  k >= 0: number of templates of the apply_product<> probe (0 = none)
 """
 import hashlib, itertools, json
@@ -146,7 +147,15 @@ def generate(sc, expected_product=None, expected_apply=None):
         w('template<> struct id_of<M%d> { static constexpr int value = %d; };' % (m, m))
     w('template<typename... T> constexpr long code_of() { long c = 0; int d_[] = {0, (c = c * %d + T::id, 0)...}; (void)d_; return c; }' % CODE_BASE)
     w('struct nd_indirect : not_defined {};')
+    w('struct nd_a : not_defined {};')
+    w('struct nd_b : not_defined {};')
     w('')
+
+    def nd_base(n):
+        # the ways a container can derive from not_defined: directly, through an intermediate class, privately, and through
+        # two bases at once (a repeated base: is_base_of says yes, a pointer conversion would be inaccessible resp. ambiguous)
+        return ['not_defined', 'nd_indirect', 'private not_defined', 'nd_a, nd_b'][n % 4] if sc['indirect'] else 'not_defined'
+
     undef = [tuple(c) for c in sc['undef']]
     undef_set = set(undef)
     prod = list(itertools.product(*full_lists(sc)))     # only to enumerate the explicit specializations
@@ -160,7 +169,7 @@ def generate(sc, expected_product=None, expected_apply=None):
     if dd:
         w('%s struct definition %s;' % (head, body))
         for n, c in enumerate(undef):
-            base = 'nd_indirect' if (sc['indirect'] and n % 2 == 1) else 'not_defined'
+            base = nd_base(n)
             if n % 3 == 2:
                 # marked not_defined although the specialization still HAS a fn (the mark is what counts, not the absence of fn)
                 cls = c[1:] if first else c
@@ -189,9 +198,9 @@ def generate(sc, expected_product=None, expected_apply=None):
                 ks = ', '.join('K%d' % x for x in cls)
                 meth = '' if first else 'using method = M0; '
                 w('template<> struct definition<%s> : %s { %sstatic long fn(%s) { return 1000000 + code_of<%s>(); } };'
-                  % (_combo_types(c, first), 'nd_indirect' if sc['indirect'] else 'not_defined', meth, ps, ks))
-            elif sc['indirect'] and n % 2 == 1:
-                w('template<> struct definition<%s> : nd_indirect {};' % _combo_types(c, first))
+                  % (_combo_types(c, first), nd_base(n + 1), meth, ps, ks))
+            elif sc['indirect'] and n % 4 != 0:
+                w('template<> struct definition<%s> : %s {};' % (_combo_types(c, first), nd_base(n)))
             n += 1
     w('')
     fl = full_lists(sc)
